@@ -787,6 +787,11 @@ class Dict(dict, base.Symbolic, pg_typing.CustomTyping):
     # Detach the removed value from the object tree.
     if isinstance(value, base.TopologyAware):
       value.sym_setparent(None)
+    if flags.is_change_notification_enabled():
+      self._notify_field_updates([
+          base.FieldUpdate(
+              self.sym_path + key, self, None, value, pg_typing.MISSING_VALUE)
+      ])
     return key, value
 
   def clear(self) -> None:
@@ -795,14 +800,29 @@ class Dict(dict, base.Symbolic, pg_typing.CustomTyping):
       raise base.WritePermissionError('Cannot clear a sealed Dict.')
     value_spec = self._value_spec
     self._value_spec = None
+    old_items = list(self.sym_items())
     # Detach the removed values from the object tree.
-    for v in self.sym_values():
+    for _, v in old_items:
       if isinstance(v, base.TopologyAware):
         v.sym_setparent(None)
     super().clear()
 
     if value_spec:
-      self.use_value_spec(value_spec, self._allow_partial)
+      # Re-filling the defaults is part of the same change: it is reported
+      # below, once, with the values the keys had before the call.
+      with flags.notify_on_change(False):
+        self.use_value_spec(value_spec, self._allow_partial)
+
+    if flags.is_change_notification_enabled():
+      updates = []
+      for k, old_value in old_items:
+        new_value = self.sym_getattr(k, pg_typing.MISSING_VALUE)
+        if old_value is not new_value:
+          field = value_spec.schema.get_field(k) if value_spec else None
+          updates.append(base.FieldUpdate(
+              self.sym_path + k, self, field, old_value, new_value))
+      if updates:
+        self._notify_field_updates(updates)
 
   def setdefault(self, key: Union[str, int], default: Any = None) -> Any:
     """Sets default as the value to key if not present."""
